@@ -8,7 +8,7 @@ EXTENDS Integers, Sequences, FiniteSets, TLC, Json, IOUtils
 Trace    == ndJsonDeserialize(IOEnv.VERIF_TRACE)
 NEvents  == Len(Trace)
 Has(r, f) == f \in DOMAIN r
-MaxBad   == 40
+MaxBad   == 300
 (* append a finding unless the list is already long (one run reports many, not unboundedly many) *)
 Note(bad, e) == IF Len(bad) < MaxBad THEN Append(bad, e) ELSE bad
 SeqToSet(s) == { s[i] : i \in 1..Len(s) }
